@@ -37,8 +37,10 @@ Inductive phase :=
 | Inside (sub linked : list jobid)               (* inside the block: jobs submitted / linked so far *)
 | ExitRm (sub linked : list jobid)           (* __exit__ without exception: rmtree(jobs.bak) *)
 | ExitWait (sub linked : list jobid)         (* __exit__ without exception: self.wait() *)
-| ExitFin (sub linked : list jobid).         (* only in the repaired order (step_late): wait() succeeded and the backup
+| ExitFin (sub linked : list jobid)         (* only in the repaired order (step_late): wait() succeeded and the backup
                                                 is gone, the finally-clause has not yet released the lock *)
+| GenIn.                                     (* inside the block of a GENERATE_ONLY run: the lock is held, the index
+                                                has not been rotated, nothing is scheduled *)
 
 Definition is_out (p : phase) : bool := match p with Out => true | _ => false end.
 
@@ -82,12 +84,19 @@ Inductive event :=
 | WaitOk (p : proc)              (* only in the repaired order (step_late): wait() returned, the backup is still there;
                                     in the code as it is wait() is the last thing __exit__ does: its success is `Done` *)
 | MkJobDir (j : jobid)           (* environment: a job directory appears in workspace/jobs *)
-| RmJobDir (j : jobid).          (* environment: a job directory is deleted (e.g. orphans --clean) *)
+| RmJobDir (j : jobid)           (* environment: a job directory is deleted (e.g. orphans --clean) *)
+(* run kinds other than NORMAL.  RunMode.GENERATE_ONLY: __enter__ takes the lock (run_mode != DRY_RUN) but does
+   not rotate the index (run_mode == NORMAL only); submit() only prepares the job folder (MkJobDir) and never
+   reaches the scheduler, so no link is made; __exit__ does not touch jobs.bak (run_mode == NORMAL only) and
+   releases the lock, whether the block raised or not.  RunMode.DRY_RUN takes no lock and touches nothing:
+   it has no event.                                                                                          *)
+| LockGen (p : proc)             (* __enter__ of a generate-only run *)
+| EndGen (p : proc) (raised : bool). (* __exit__ of a generate-only run (block ended normally / raised) *)
 
 Definition actor (e : event) : option proc :=
   match e with
   | Lock p | MkBak p | Move p _ | Ready p | Submit p _ | Link p _ | EndOk p
-  | RmEntry p _ | RmBakDir p | Done p | EndExc p _ | Kill p | WaitFail p | WaitOk p => Some p
+  | RmEntry p _ | RmBakDir p | Done p | EndExc p _ | Kill p | WaitFail p | WaitOk p | LockGen p | EndGen p _ => Some p
   | MkJobDir _ | RmJobDir _ => None
   end.
 
@@ -202,6 +211,16 @@ Definition step (s : st) (e : event) : option st :=
       Some (mk (jobs s) (bak s) (lock s) (ph s) (if memz j (dirs s) then dirs s else j :: dirs s))
   | RmJobDir j =>
       Some (mk (jobs s) (bak s) (lock s) (ph s) (filter (fun d => negb (d =? j)) (dirs s)))
+  | LockGen p =>
+      match lock s, ph s p with
+      | None, Out => Some (mk (jobs s) (bak s) (Some p) (upd (ph s) p GenIn) (dirs s))
+      | _, _ => None
+      end
+  | EndGen p _ =>
+      match ph s p with
+      | GenIn => Some (mk (jobs s) (bak s) (release p (lock s)) (upd (ph s) p Out) (dirs s))
+      | _ => None
+      end
   end.
 
 Definition ostep (os : option st) (e : event) : option st :=
@@ -321,6 +340,21 @@ Definition step_exconly (s : st) (e : event) : option st :=
   end.
 Definition run_exconly (s : st) (tr : list event) : option st :=
   fold_left (fun os e => match os with Some s => step_exconly s e | None => None end) tr (Some s).
+
+(* an __exit__ that removes jobs.bak whenever the experiment lock is held (instead of: in NORMAL run mode): a
+   generate-only run that ends normally deletes the backup left by an aborted normal run although it has not
+   rebuilt any index *)
+Definition step_genrm (s : st) (e : event) : option st :=
+  match e with
+  | EndGen p false =>
+      match ph s p with
+      | GenIn => Some (mk (jobs s) None (release p (lock s)) (upd (ph s) p Out) (dirs s))
+      | _ => None
+      end
+  | _ => step_late s e
+  end.
+Definition run_genrm (s : st) (tr : list event) : option st :=
+  fold_left (fun os e => match os with Some s => step_genrm s e | None => None end) tr (Some s).
 
 (* ---- what `lock : option proc` abstracts: the lock *file* -------------------------------------
    fasteners.InterProcessLock.acquire opens the path once (`_do_open`, creating the file when it
